@@ -35,9 +35,48 @@ func init() {
 // localKeyFields: for a transactions.Key value operand (load of a local cell), the set of field
 // names that are definitely assigned before `at`, with the stored terms.
 func (w *World) localKeyFields(at ssa.Instruction, v ssa.Value) (map[string][]*Term, map[string]bool, bool) {
+	// the key returned by a module helper: look at what the helper builds and returns
+	if c, ok := v.(*ssa.Call); ok {
+		if g := c.Common().StaticCallee(); g != nil && w.P.IsLib(g) && len(g.Blocks) > 0 {
+			var rets []*ssa.Return
+			eachInstr([]*ssa.Function{g}, func(_ *ssa.Function, ins ssa.Instruction) {
+				if r, ok := ins.(*ssa.Return); ok {
+					rets = append(rets, r)
+				}
+			})
+			if len(rets) == 1 && len(rets[0].Results) == 1 {
+				return w.localKeyFields(rets[0], rets[0].Results[0])
+			}
+		}
+		return nil, nil, false
+	}
 	al := allocOfLoad(v)
 	if al == nil || al.Referrers() == nil {
 		return nil, nil, false
+	}
+	// a local that only ever holds the result of such a helper
+	var whole []ssa.Value
+	partial := false
+	for _, r := range *al.Referrers() {
+		switch x := r.(type) {
+		case *ssa.Store:
+			if x.Addr == ssa.Value(al) {
+				whole = append(whole, x.Val)
+			}
+		case *ssa.FieldAddr:
+			if x.Referrers() != nil {
+				for _, r2 := range *x.Referrers() {
+					if s2, ok := r2.(*ssa.Store); ok && s2.Addr == ssa.Value(x) {
+						partial = true
+					}
+				}
+			}
+		}
+	}
+	if !partial && len(whole) == 1 {
+		if _, isCall := whole[0].(*ssa.Call); isCall {
+			return w.localKeyFields(at, whole[0])
+		}
 	}
 	vals := map[string][]*Term{}
 	definite := map[string]bool{}
@@ -276,15 +315,17 @@ func c07r3(w *World, rr *RuleRun) {
 	addT := w.P.Func("(*Server).addTransaction")
 	delT := w.P.Func("(*Server).deleteTransaction")
 	sender := w.P.Func("(*Server).transactionQuerySender")
-	adds := w.CallsIn(q, addT, false)
+	adds := w.callsLifted(q, addT)
 	rr.Oblige(shortFuncName(q), "Query registers its transaction exactly once", w.P.Pos(q.Pos()), len(adds) == 1, fmt.Sprintf("%d addTransaction calls", len(adds)))
-	for _, a := range adds {
-		st := w.LK.StatesAt(mu, a)
-		rr.At(w, a, "registration runs under Server.mu (write)", allHeld(st, true), "lock states "+statesString(st))
+	for _, lc := range adds {
+		a := lc.Root
+		st := w.LK.StatesAt(mu, lc.Inner)
+		rr.At(w, lc.Inner, "registration runs under Server.mu (write)", allHeld(st, true), "lock states "+statesString(st))
+		key := w.argAtRoot(lc, 1)
 		// deregistration post-dominates
 		ok, wit := MustPass(a, func(i ssa.Instruction) bool {
 			c := callInstrCommon(i)
-			return c != nil && callMatches(c, delT) && termEq(w.TS.Of(c.Args[1]), w.TS.Of(callInstrCommon(a).Args[1]))
+			return c != nil && callMatches(c, delT) && termEq(w.TS.Of(c.Args[1]), key)
 		})
 		det := ""
 		if wit != nil {
@@ -388,8 +429,21 @@ func c07r4(w *World, rr *RuleRun) {
 			continue
 		}
 		c := callInstrCommon(e.Site)
-		t := w.TS.Of(c.Args[len(c.Args)-1])
-		rr.At(w, e.Site, "the t of an outbound query is a freshly issued id", isCall(t, nextTID) || isCall(t, issue), "t ← "+trunc(t.String(), 120))
+		tv := c.Args[len(c.Args)-1]
+		t := w.TS.Of(tv)
+		fresh := isCall(t, nextTID) || isCall(t, issue)
+		if !fresh {
+			// the id read back from a key that a registration helper built and returned
+			if ts := w.fieldThroughHelper(tv); len(ts) > 0 {
+				fresh = true
+				for _, x := range ts {
+					if !isCall(x, nextTID) && !isCall(x, issue) {
+						fresh = false
+					}
+				}
+			}
+		}
+		rr.At(w, e.Site, "the t of an outbound query is a freshly issued id", fresh, "t ← "+trunc(t.String(), 120))
 	}
 	for _, bb := range nextTID.Blocks {
 		for _, ins := range bb.Instrs {
@@ -471,4 +525,59 @@ func c07r6(w *World, rr *RuleRun) {
 		}
 		rr.At(w, e.Site, "payload length and source address come from the same ReadFrom", rfB != nil && rfA != nil && termEq(rfB, rfA), "payload "+trunc(b.String(), 100)+" source "+trunc(a.String(), 100))
 	}
+}
+
+// fieldThroughHelper: v loads field f of a local struct whose only assignment is the result of a
+// module helper; returns the terms the helper stores into f of the value it returns.
+func (w *World) fieldThroughHelper(v ssa.Value) []*Term {
+	var fa *ssa.FieldAddr
+	switch x := v.(type) {
+	case *ssa.UnOp:
+		fa, _ = x.X.(*ssa.FieldAddr)
+		src := x.X
+		if fv, ok := src.(*ssa.FreeVar); ok {
+			if b, ok := w.TS.fvBind[fv]; ok {
+				src = b
+			}
+		}
+		if al, ok := src.(*ssa.Alloc); ok && fa == nil {
+			// single-assignment local holding the loaded field
+			if al.Referrers() != nil {
+				for _, r := range *al.Referrers() {
+					if st, ok := r.(*ssa.Store); ok && st.Addr == ssa.Value(al) {
+						return w.fieldThroughHelper(st.Val)
+					}
+				}
+			}
+			return nil
+		}
+	case *ssa.Field:
+		if c, ok := x.X.(*ssa.Call); ok {
+			vals, _, ok := w.localKeyFields(c, c)
+			if ok {
+				st := x.X.Type().Underlying().(*types.Struct)
+				return vals[st.Field(x.Field).Name()]
+			}
+		}
+		return nil
+	}
+	if fa == nil {
+		return nil
+	}
+	al, ok := fa.X.(*ssa.Alloc)
+	if !ok || al.Referrers() == nil {
+		return nil
+	}
+	for _, r := range *al.Referrers() {
+		if st, ok := r.(*ssa.Store); ok && st.Addr == ssa.Value(al) {
+			if c, ok := st.Val.(*ssa.Call); ok {
+				vals, _, ok := w.localKeyFields(c, c)
+				if ok {
+					stt := al.Type().Underlying().(*types.Pointer).Elem().Underlying().(*types.Struct)
+					return vals[stt.Field(fa.Field).Name()]
+				}
+			}
+		}
+	}
+	return nil
 }
